@@ -15,7 +15,7 @@ claimed = {
    note="Trusted: as C05. 'Promptly' is decided as: in the maximal execution nothing but non-blocking steps of the reader separate Close's return from the channel closes (no further environment input is needed).",
    technique="stateless model checking: exhaustive preemption-bounded schedule enumeration with channel-protocol invariants"),
  "C13": dict(engine=E1, design="5 (C13), 2 (E1)",
-   text="Same executions as C05/C06 (all histories and schedules incl. Close||Close and Close racing Add/Remove) plus NewWatcher with inotify_init1 failing: after every maximal execution in which Close returned, the syscall seam's descriptor table must show no inotify descriptor still open and no library-spawned thread alive; a failed NewWatcher must leave both counts unchanged.",
+   text="Same executions as C05/C06 (all histories and schedules incl. Close||Close and Close racing Add/Remove) plus NewWatcher with inotify_init1 failing: after every maximal execution in which Close returned, the syscall seam's descriptor table must show no inotify descriptor still open and no library-spawned thread alive; a failed NewWatcher must leave both counts unchanged (seam accounting plus a before/after snapshot of the process's descriptors on regular paths); a Close that never returns counts as a violation; the notification descriptor must be close-on-exec (a child process would otherwise keep the instance and its watches alive after Close).",
    note="Trusted: descriptor accounting at the seam (every inotify_init1/os.NewFile/Close of the back end is rewritten to vsys); kernel watches die with the instance descriptor. 'Thousands of cycles' follows because the state after one create/close cycle equals the initial state (fixed point).",
    technique="stateless model checking: exhaustive schedule and init-fault enumeration with a resource-accounting oracle"),
 }
@@ -23,7 +23,7 @@ E4 = "E4 vxgen+vpure (exhaustive enumeration of complete finite input domains ag
 claimed.update({
  "C15": dict(engine=E4, design="5 (C15), 2 (E4)",
    text="Every input of every translation table is enumerated, none sampled: all 2^16 combinations of the 12 inotify event bits plus ISDIR/IGNORED/UNMOUNT/Q_OVERFLOW through the real newEvent; all 2^9 operation subsets x {follow, no-follow} through a real AddWith on the real kernel with the resulting kernel-side mask and inode read back from /proc/self/fdinfo; all 2^11 kqueue fflags x link-name present/absent and the subscribed note set; all 2^13 Windows masks through newEvent and toWindowsFlags, all action codes 0..8 through toFSnotifyFlags and their composition; xSupports of all four back ends over all 2^9 subsets. Each against an independently written reference table (union-of-parts by construction).",
-   note="kqueue/Windows/FEN functions are extracted textually from the working tree (vxgen) and compiled against constants parsed from golang.org/x/sys v0.13.0; if a change makes them depend on other back-end code the extraction fails as an engine error, not as a verdict. The request-side reference is the documented per-operation flag set.",
+   note="The kqueue functions come from the full transplant of that back end (verif/gen/kq); the Windows/FEN functions are extracted textually from the working tree (vxgen) and compiled against constants parsed from golang.org/x/sys v0.13.0; if a change makes them depend on other back-end code the extraction fails as an engine error, not as a verdict. The request-side reference is the documented per-operation flag set.",
    technique="exhaustive input-space enumeration (depth-1 bounded model checking) against a reference table"),
  "C16": dict(engine=E4, design="5 (C16), 2 (E4)",
    text="Op.Has and Event.Has over the whole stated domain squared (quick: the 2^9 defined-bit values plus every single undefined bit and all-ones patterns; thorough: all 2^16 x 2^16 pairs = 4.3e9) against set intersection; Op.String over all 2^16 low values plus every defined subset x every high bit against a reference rendering whose order is taken from the rendering of the full set (so any fixed order passes), with injectivity on the 512 defined subsets and '[no events]' iff no defined bit; Event.String over 13 names (empty, quotes, newline, invalid UTF-8, NUL, 255 bytes, containing the arrow) x 13 old names x 12 op values.",
@@ -37,7 +37,7 @@ claimed.update({
 E2 = "E2 explicit-state BFS over operation sequences on the instrumented real code (harness/bfs.go, seq.go, ideal.go)"
 claimed.update({
  "C04": dict(engine=E2, design="5 (C04), 2 (E2), 4",
-   text="Breadth-first search over sequences of Add/Remove/WatchList calls (files, directories, symlinks to both, hard link, missing path, path through a non-directory, symlink loop, 256-byte name; f and d in seven equivalent spellings) interleaved with rm/mv/recreate/retarget-symlink/ln steps. Every transition replays the sequence on a fresh directory and a fresh Watcher of the instrumented real code, runs to quiescence, and compares with a reference watch-set model fed only by API results, the inotify syscalls seen at the seam, stat() and the raw bytes of each kernel read: WatchList as a set, error classes (errors.Is), failed calls leave the tables untouched, no panic, no duplicate events. States are deduplicated by a canonical form; a second phase applies every two-operation burst (no quiescence in between) from the shallow states.",
+   text="Breadth-first search over sequences of Add/Remove/WatchList calls (files, directories, symlinks to both, hard link, missing path, path through a non-directory, symlink loop, 256-byte name; f and d in seven equivalent spellings) interleaved with rm/mv/recreate/retarget-symlink/ln steps. Every transition replays the sequence on a fresh directory and a fresh Watcher of the instrumented real code, runs to quiescence, and compares with a reference watch-set model fed only by API results, the inotify syscalls seen at the seam, stat() and the raw bytes of each kernel read: WatchList as a set, error classes (errors.Is), failed calls leave the tables untouched, no panic, no duplicate events. States are deduplicated by a canonical form; a second phase applies every two-operation burst (no quiescence in between) from the shallow states, and all 4608 bursts of three and four operations over the log-rotation alphabet {rm, Remove, recreate, Add, rename away, rename back, hold open, close} are run from {Add f}. An orphan or missing kernel watch (fdinfo) counts here too ('releases the old one').",
    note="Bounds: full-spelling alphabet to depth 4 (quick) / 7 (thorough); one-spelling alphabet to depth 7 / fixed point; bursts of 2. Sequential histories only (concurrent callers are C07). The model follows the kernel in treating a watch as attached to the inode (hard-link corner cases are left out of the alphabet where property and kernel disagree).",
    technique="explicit-state model checking: BFS over operation sequences on the real code with canonical-state hashing and a reference model"),
  "C09": dict(engine=E2, design="5 (C09), 2 (E2), 4",
@@ -56,10 +56,10 @@ claimed.update({
    note="Ground truth is the kernel's own record stream as handed to the library's read (captured without passing through library code) plus fdinfo for what is subscribed (C12/C15). Records raced by a Remove/re-Add that returned later are 'may'.",
    technique="explicit-state model checking (BFS over histories x batchings) plus exhaustive enumeration of input-shape batches on the real code against a reference translation of the raw kernel stream"),
  "C02": dict(engine=EV, design="5 (C02), 4",
-   text="Same executions as C01; every received event must be backed by a kernel record of a watch that was listed when the record was caused (or a direct child), have a non-empty Op, not stem from IN_IGNORED/IN_UNMOUNT/IN_Q_OVERFLOW, not stem from an unwatched sub-directory, and not stem from a change made after Remove of its watch returned (stream positions are compared with the position at which Remove returned).",
+   text="Same executions as C01; every received event must be backed by a kernel record of a watch that was listed when the record was caused (or a direct child), have a non-empty Op, not stem from IN_IGNORED/IN_UNMOUNT/IN_Q_OVERFLOW, not stem from an unwatched sub-directory, and not stem from a change made after Remove of its watch returned (stream positions are compared with the position at which Remove returned). An event whose name is not byte-exactly a watched path or a direct child (padding bytes, wrong prefix) counts as a phantom; the recursive-watch search of C19 is run as well and an event under a path that does not exist counts here too.",
    note="As C01.", technique="explicit-state model checking plus exhaustive batch enumeration; must-not side of the reference model"),
  "C03": dict(engine=EV, design="5 (C03), 4",
-   text="Same executions as C01 (all batchings up to bursts of three, capacities 0/1/2 with the consumer attached late); the received sequence must equal the translated kernel sequence in order - optional records may be dropped but never moved; Rename(old) immediately followed by Create(new) for moves between watched names.",
+   text="Same executions as C01 (all batchings up to bursts of three, capacities 0/1/2 with the consumer attached late); the received sequence must equal the translated kernel sequence in order - optional records may be dropped but never moved; Rename(old) immediately followed by Create(new) for moves between watched names (checked explicitly for the two halves of every kernel-adjacent rename, also when a directory and its entry are both watched). Plus E1 family order: three-operation histories x Events capacity default/1/2/64 x every interleaving of harness, reader and consumer up to preemption bound 2 (consumer pace is nothing but schedule), same oracle.",
    note="Consumer pace beyond 'eager' and 'late' is schedule, covered by the E1 scenarios of C05-C07.", technique="explicit-state model checking with an order-preserving alignment oracle"),
  "C08": dict(engine=EV, design="5 (C08)",
    text="The complete product {10 spellings of the watched directory: relative, ./, //, x/../, trailing slash, /., absolute, relative symlink, absolute symlink, ./link/} x {27 entry names covering every padded length 16..256 and multi-byte UTF-8} x {single record, every ordered pair} run with the scratch directory as cwd; self events of a watched file under 7 spellings incl. through a symlink; first-added-wins histories (link/target, hard link/file, several spellings, retargeted links). Expected name = filepath.Clean(argument) [+ '/' + entry], compared byte for byte.",
@@ -71,12 +71,12 @@ claimed.update({
    text="BFS over moves within/between/into/out of two watched directories with creates and links (+ bursts of three); chains of 9..25 moves (ring wrap), singly and in bursts; 0..12 unmatched move-outs before a move-in, create, link or matched move; an API call landing between the two halves of a move (reader parked on the Rename); all 6 and 90 interleavings of the MOVED_FROM/MOVED_TO halves of 2 and 3 simultaneous moves, injected as crafted records for really registered wds, whole and split over two reads. Oracle: a Create from a MOVED_TO carries exactly the name of the delivered Rename with the same cookie; every other Create carries none.",
    note="Interleaved halves are injected because the interleaving happens inside the kernel.", technique="explicit-state BFS plus exhaustive enumeration of injected record interleavings"),
  "C14": dict(engine=EV, design="5 (C14)",
-   text="Differential: every history of one or two operations over ten operations (thorough: three), as a burst and step by step, with Events capacity default,0,1,2,4,...,65536; single bursts additionally with the consumer attached only afterwards (absorb clause: a buffer that can hold the history leaves nothing in the kernel queue). Runs with equal read points must deliver byte-identical sequences; every run must match the reference model; cap(Events) must equal the request. Lagging consumers on buffered Watchers (every step read, nothing received until the end) for all triples of six operations x capacities 1,2,8,64. Other Watchers created, used and closed at every position of three histories, incl. API calls on a closed Watcher whose descriptor number has been recycled (synchronous close).",
+   text="Differential: every history of one or two operations over ten operations (thorough: three), as a burst and step by step, with Events capacity default,0,1,2,4,...,65536; single bursts additionally with the consumer attached only afterwards (absorb clause: a buffer that can hold the history leaves nothing in the kernel queue). Runs with equal read points must deliver byte-identical sequences; every run must match the reference model; cap(Events) must equal the request. Lagging consumers on buffered Watchers (every step read, nothing received until the end) for all triples of six operations x capacities 1,2,8,64. Other Watchers created, used and closed at every position of three histories, incl. API calls on a closed Watcher whose descriptor number has been recycled (synchronous close), other Watchers under other spellings and with differently numbered watch descriptors, a 250-byte entry name among the operations. E1: two Watchers whose descriptors are numbered differently for the same paths, every interleaving of the harness and the two readers up to preemption bound 2 - anything shared between Watchers (read buffer, cookie ring) shows as wrong names or old names.",
    note="Other Watchers live in the same process.", technique="exhaustive differential enumeration over configurations on the real code"),
 })
 claimed.update({
  "C07": dict(engine=E1, design="5 (C07), 3",
-   text="Every schedule up to preemption bound 2 (1 for two-step filesystem threads in the quick tier) of ~900 closed programs {initial watch set} x {two API threads with one or two calls each from Add/Remove/WatchList/Close over paths forced to collide: one directory in two spellings, a file and its symlink} x {filesystem thread: none, rm f, rm+recreate f, mv f g, create+delete in the watched directory}. Per execution: (i) lockset assertions inserted by vinst in front of every statement touching the watch tables or the cookie ring (state guarded by a single lock: equivalent to race freedom on it), (ii) no panic in any thread, (iii) no call left blocked, (iv) the call/return history with scheduler time stamps and filesystem steps as zero-width operations is checked for linearizability against a nondeterministic sequential watch-set model with porcupine v1.3.0 (zombie entries of deleted/renamed files are the nondeterminism; calls overlapping a Close may fail with any error), (v) WatchList never shows a duplicate or a never-added path.",
+   text="Every schedule up to preemption bound 2 (1 for two-step filesystem threads in the quick tier) of ~900 closed programs {initial watch set} x {two API threads with one or two calls each from Add/Remove/WatchList/Close over paths forced to collide: one directory in two spellings, a file and its symlink} x {filesystem thread: none, rm f, rm+recreate f, mv f g, create+delete in the watched directory}. Per execution: (i) lockset assertions inserted by vinst in front of every statement touching the watch tables or the cookie ring (state guarded by a single lock: equivalent to race freedom on it), (ii) no panic in any thread, (iii) no call left blocked, (iv) the call/return history with scheduler time stamps and filesystem steps as zero-width operations is checked for linearizability against a nondeterministic sequential watch-set model with porcupine v1.3.0 (zombie entries of deleted/renamed files are the nondeterminism; calls overlapping a Close may fail with any error), (v) WatchList never shows a duplicate or a never-added path, (vi) dynamic (Eraser) lockset: for every map, by identity, the mutexes held at every access are intersected; two threads and an empty intersection is a report - this also sees a map reached through an alias outside the lock.",
    note="Races on state outside the lockset specification (vinst.DefaultGuards) and weak-memory effects are not decided by this check; the Go race detector cannot be combined with the cooperative scheduler (hand-offs are happens-before edges).",
    technique="stateless model checking: preemption-bounded schedule enumeration of the real code with lockset assertions and a porcupine linearizability check per execution"),
 })
